@@ -97,7 +97,23 @@ def _gen_counts(r, gtype):
     return [r.choice([lo, lo, lo + 1, lo + 2, lo + 3, lo + 5]) if r.random() < 0.9 else r.randint(lo, 30) for _ in range(n)]
 
 
-def _gen_coords(r, nr, gtype, counts, dim, zclass, dtype):
+def _neighbour_shape(r, gtype, a, variant):
+    """VALID shapes that a refusal rule of a NEIGHBOURING graphic type would refuse: the open-polygon rule does not apply to
+    polylines, rectangles or ellipses (closed = last point equals first point in every coordinate); a polygon may repeat its
+    first point in the middle or agree with it in all coordinates but one; a polyline may consist of one repeated point."""
+    if variant == 'closed' and gtype in ('POLYLINE', 'RECTANGLE', 'ELLIPSE'):
+        a[-1] = a[0]
+    elif variant == 'degenerate' and gtype == 'POLYLINE':
+        a[:] = a[0]
+    elif variant == 'almost-closed' and gtype == 'POLYGON':
+        a[-1] = a[0]
+        a[-1, r.randrange(a.shape[1])] += 1
+        if len(a) > 3:
+            a[1] = a[0]                      # first point repeated in the middle
+    return a
+
+
+def _gen_coords(r, nr, gtype, counts, dim, zclass, dtype, variant=None):
     arrays = []
     zconst = None
     for i, c in enumerate(counts):
@@ -123,6 +139,8 @@ def _gen_coords(r, nr, gtype, counts, dim, zclass, dtype):
                 a[:, 2] = zconst
             elif zclass == 'per-annotation':
                 a[:, 2] = a[0, 2]
+        if variant and (variant != 'closed-some' or i % 2 == 0):
+            a = _neighbour_shape(r, gtype, a, 'closed' if variant == 'closed-some' else variant)
         if gtype == 'POLYGON' and np.array_equal(a[0], a[-1]):
             a[-1, 0] = a[0, 0] + 1
         arrays.append(a)
@@ -178,7 +196,11 @@ def _gen_group(ctx, stream, idx, number, dim):
     dtype = r.choice(['f4', 'f4', 'f8', 'f8', 'i4', 'i8', 'u2', 'mixed', 'f2', '>f4', '>f8', '>i4'])
     zclass = r.choice(['const', 'vary', 'per-annotation']) if dim == 3 else '-'
     counts = _gen_counts(r, gtype)
-    coords, zclass = _gen_coords(r, nr, gtype, counts, dim, zclass, dtype)
+    variant = None
+    if r.random() < 0.3:
+        variant = {'POLYLINE': r.choice(['closed', 'closed', 'closed-some', 'degenerate']), 'RECTANGLE': r.choice(['closed', 'closed-some']),
+                   'ELLIPSE': r.choice(['closed', 'closed-some']), 'POLYGON': 'almost-closed'}.get(gtype)
+    coords, zclass = _gen_coords(r, nr, gtype, counts, dim, zclass, dtype, variant)
     manual = r.random() < 0.5
     spec = {
         'number': number, 'uid': f'1.2.826.0.1.3680043.10.511.3.{idx}.{number}.{r.randrange(10 ** 6)}',
@@ -189,6 +211,7 @@ def _gen_group(ctx, stream, idx, number, dim):
         'alg': None if (manual and r.random() < 0.7) else (r.choice(['algoA', 'algoB']), r.choice(['1.0', '2.0']), r.randrange(2)),
         'meas': _gen_meas(r, nr, len(counts)),
         'description': None if r.random() < 0.5 else 'd',
+        'variant': variant or '-',
     }
     return spec
 
@@ -399,6 +422,7 @@ def _observe_group(ctx, spec, g, path, ct, reqs, pending, base):
     ctx.case(sample=dict(case, gtype=spec['gtype'], counts=spec['counts'][:8], dtype=spec['dtype'], zclass=spec['zclass'])
              if ctx.evaluations % 211 == 0 else None, nontrivial_key=key,
              gtype=spec['gtype'], dim=f"{spec['dim']}D/{spec['zclass']}", dtype=spec['dtype'], path=path,
+             shape_variant=f"{spec['gtype']}/{spec.get('variant', '-')}",
              n_annotations=(n if n < 10 else '10+'))
     st, gd = _try(g.get_graphic_data, ct)
     if st != 'ok':
@@ -697,7 +721,8 @@ def _object(ctx, idx, reqs, pending, stream='obj'):
 
 
 GRID = [(g, dz, dt, n, prof) for g in GTYPES for dz in ('2', '3c', '3p', '3v') for dt in ('f4', 'f8', 'i4', 'i8', 'u2', 'mixed')
-        for n in (1, 2, 3) for prof in (('min',) if g in FIXED else ('min', 'mixed'))]
+        for n in (1, 2, 3) for prof in ({'POINT': ('min',), 'RECTANGLE': ('min', 'closed'), 'ELLIPSE': ('min', 'closed'),
+                                         'POLYLINE': ('min', 'mixed', 'closed', 'degenerate'), 'POLYGON': ('min', 'mixed', 'almost-closed')}[g])]
 
 
 def _grid_spec(ctx, gidx):
@@ -708,10 +733,13 @@ def _grid_spec(ctx, gidx):
     zclass = {'2': '-', '3c': 'const', '3p': 'per-annotation', '3v': 'vary'}[dz]
     lo = MIN_PTS[gtype]
     counts = [FIXED[gtype]] * n if gtype in FIXED else ([lo] * n if prof == 'min' else [lo + 2, lo, lo + 1][:n])
-    coords, zclass = _gen_coords(r, nr, gtype, counts, dim, zclass, dtype)
+    variant = prof if prof in ('closed', 'degenerate', 'almost-closed') else None
+    if variant == 'almost-closed' and gtype == 'POLYGON':
+        counts = [4, 3, 5][:n]
+    coords, zclass = _gen_coords(r, nr, gtype, counts, dim, zclass, dtype, variant)
     spec = {'number': 1, 'uid': f'1.2.826.0.1.3680043.10.511.4.{gidx}', 'label': 'grid', 'gtype': gtype, 'dim': dim, 'zclass': zclass,
             'dtype': dtype, 'counts': counts, 'coords': coords, 'category': 0, 'ptype': 2, 'algorithm_type': 'MANUAL', 'alg': None,
-            'meas': _gen_meas(r, nr, n) if gidx % 3 == 0 else [], 'description': None}
+            'meas': _gen_meas(r, nr, n) if gidx % 3 == 0 else [], 'description': None, 'variant': variant or '-'}
     return spec, ('2D' if dim == 2 else '3D')
 
 
